@@ -80,11 +80,11 @@ def dec2dms(x):
         sign = '-'
     else:
         sign = '+'
-    x = abs(x)
-    d = int(math.floor(x))
-    m = int(math.floor((x - d) * 60))
-    s = float(((x - d) * 60 - m) * 60)
-    return '{0}{1:02d}:{2:02d}:{3:05.2f}'.format(sign, d, m, s)
+    # round to the printed unit (0.01 arcsec) first, then split: no ':60.00'
+    cs = int(round(abs(float(x)) * 360000))
+    d, cs = divmod(cs, 360000)
+    m, cs = divmod(cs, 6000)
+    return '{0}{1:02d}:{2:02d}:{3:05.2f}'.format(sign, d, m, cs / 100.0)
 
 
 def dec2hms(x):
@@ -107,12 +107,11 @@ def dec2hms(x):
     # wrap negative RA's
     if x < 0:
         x += 360
-    x /= 15.0
-    h = int(x)
-    x = (x - h) * 60
-    m = int(x)
-    s = (x - m) * 60
-    return '{0:02d}:{1:02d}:{2:05.2f}'.format(h, m, s)
+    # round to the printed unit (0.01 s) first, then split; 24h wraps to 0h
+    cs = int(round(float(x) * 24000)) % 8640000
+    h, cs = divmod(cs, 360000)
+    m, cs = divmod(cs, 6000)
+    return '{0:02d}:{1:02d}:{2:05.2f}'.format(h, m, cs / 100.0)
 
 
 # The following functions are explained at
